@@ -1,50 +1,11 @@
-/-! GENERATED from the Rust sources by extract.py; do not edit. -/
+/-! GENERATED from the Rust sources by tools/extract.py; do not edit. -/
 namespace Wax.Generated
 
 def metaChars : List Char := ['?', '*', '$', ':', '<', '>', '(', ')', '[', ']', '{', '}', ',']
 def contextualMetaChars : List Char := ['-']
-def literalStopSet : List Char := ['/', '?', '*', '$', ':', '<', '>', '(', ')', '[', ']', '{', '}', ',', '\\']
-def literalEscapes : List Char := ['?', '*', '$', ':', '<', '>', '(', ')', '[', ']', '{', '}', ',']
-def classStopSet : List Char := ['[', ']', '-', '\\']
 def maxInvariantSize : Nat := 65536
-inductive T where | open_ | first | last | closed | coal deriving DecidableEq, Repr
-inductive K where | left | right | neither deriving DecidableEq, Repr
-def terminationTable : List (T × T × K × T) := [
-  (.open_, .open_, .neither, .open_),
-  (.open_, .first, .neither, .open_),
-  (.open_, .last, .neither, .last),
-  (.open_, .closed, .neither, .last),
-  (.open_, .coal, .left, .last),
-  (.first, .open_, .neither, .first),
-  (.first, .first, .neither, .first),
-  (.first, .last, .neither, .closed),
-  (.first, .closed, .neither, .closed),
-  (.first, .coal, .left, .closed),
-  (.last, .open_, .neither, .open_),
-  (.last, .first, .neither, .open_),
-  (.last, .last, .neither, .last),
-  (.last, .closed, .neither, .last),
-  (.last, .coal, .left, .last),
-  (.closed, .open_, .neither, .first),
-  (.closed, .first, .neither, .first),
-  (.closed, .last, .neither, .closed),
-  (.closed, .closed, .neither, .closed),
-  (.closed, .coal, .left, .closed),
-  (.coal, .open_, .right, .first),
-  (.coal, .first, .right, .first),
-  (.coal, .last, .right, .closed),
-  (.coal, .closed, .right, .closed),
-  (.coal, .coal, .neither, .coal)]
-inductive W where | always | sometimes | never deriving DecidableEq, Repr
-def whenAnd : List (W × W × W) := [(.always, .always, .always), (.always, .sometimes, .sometimes), (.always, .never, .never), (.sometimes, .always, .sometimes), (.sometimes, .sometimes, .sometimes), (.sometimes, .never, .never), (.never, .always, .never), (.never, .sometimes, .never), (.never, .never, .never)]
-def whenOr : List (W × W × W) := [(.always, .always, .always), (.always, .sometimes, .always), (.always, .never, .always), (.sometimes, .always, .always), (.sometimes, .sometimes, .sometimes), (.sometimes, .never, .sometimes), (.never, .always, .always), (.never, .sometimes, .sometimes), (.never, .never, .never)]
-def whenCertainty : List (W × W × W) := [(.always, .always, .always), (.always, .sometimes, .sometimes), (.always, .never, .sometimes), (.sometimes, .always, .sometimes), (.sometimes, .sometimes, .sometimes), (.sometimes, .never, .sometimes), (.never, .always, .sometimes), (.never, .sometimes, .sometimes), (.never, .never, .never)]
-def neverExpression : String := "[a&&b]"
-def separatorClassExpression : String := "/"
-def rootSeparatorExpression : String := "/"
-def semanticLiterals : List String := [".", ".."]
 
-/-! helpers of the straight-line integer functions translated by tools/rs2lean.py (Wax/GeneratedBehavior.lean, GeneratedJoin.lean, GeneratedOps.lean) -/
+/-! helpers of the straight-line integer functions translated by tools/rs2lean.py -/
 /-- `usize::MAX` on the 64-bit targets the crate is checked on -/
 def usizeMax : Nat := 2 ^ 64 - 1
 /-- `usize::saturating_sub` -/
@@ -55,10 +16,5 @@ def satAdd (a b : Nat) : Nat := if a + b ≤ usizeMax then a + b else usizeMax
 def checkedAddExpect (a b : Nat) : Nat := a + b
 /-- `a.checked_mul(b).expect(..)`: the product; the panic on overflow is the side condition `a * b ≤ usizeMax` -/
 def checkedMulExpect (a b : Nat) : Nat := a * b
-
--- obligations re-checked against the code as it is now
-theorem meta_eq_escapes : metaChars.all (literalEscapes.contains ·) && literalEscapes.all (metaChars.contains ·) = true := by decide
-theorem stop_is_meta_plus_sep_bs : literalStopSet.all (fun c => c == '/' || c == '\\' || metaChars.contains c) && metaChars.all (literalStopSet.contains ·) && literalStopSet.contains '/' && literalStopSet.contains '\\' = true := by decide
-theorem table_total : terminationTable.length = 25 := by decide
 
 end Wax.Generated
